@@ -56,12 +56,12 @@ fn oracle(c: &Case, acc: &mut Acc) -> CaseResult {
     let name = format!("{} [{:?}]", spec.name_string(), c.backend);
     let oneway = spec.pattern().is_oneway();
     let pair = drive_to(&spec, spec.n_msgs())?;
-    let ti = pair.i.into_stateless_transport_mode().map_err(|x| Fail::new(e(&x)))?;
-    let tr = pair.r.into_stateless_transport_mode().map_err(|x| Fail::new(e(&x)))?;
+    let ti = pair.i.into_stateless_transport_mode().map_err(|x| Fail::setup(e(&x)))?;
+    let tr = pair.r.into_stateless_transport_mode().map_err(|x| Fail::setup(e(&x)))?;
     // identically keyed stateful session (deterministic build)
     let pair2 = drive_to(&spec, spec.n_msgs())?;
-    let mut fi = pair2.i.into_transport_mode().map_err(|x| Fail::new(e(&x)))?;
-    let mut fr = pair2.r.into_transport_mode().map_err(|x| Fail::new(e(&x)))?;
+    let mut fi = pair2.i.into_transport_mode().map_err(|x| Fail::setup(e(&x)))?;
+    let mut fr = pair2.r.into_transport_mode().map_err(|x| Fail::setup(e(&x)))?;
     let items: Vec<Item> = c.items.iter().filter(|it| !(oneway && it.r_to_i)).cloned().collect();
     if items.is_empty() {
         acc.skip("no applicable items");
@@ -73,7 +73,7 @@ fn oracle(c: &Case, acc: &mut Acc) -> CaseResult {
     for (k, it) in items.iter().enumerate() {
         let f = if it.r_to_i { &mut fr } else { &mut fi };
         f.verif_set_sending_nonce(it.nonce);
-        let m = t_write(f, &payloads[k], it.plen + 16).map_err(|x| Fail::new(format!("{name}: stateful write at nonce {}: {}", it.nonce, e(&x))))?;
+        let m = t_write(f, &payloads[k], it.plen + 16).map_err(|x| Fail::setup(format!("{name}: stateful write at nonce {}: {}", it.nonce, e(&x))))?;
         first[k] = Some(m);
     }
     let mut repeated = false;
